@@ -1,6 +1,6 @@
 """What is claimed, per property. A property appears in CLAIMS only once its checker exists and
 passes on the unchanged tree."""
-FIX_COMMITS = ["4e9e139", "5ee6583", "744f482", "eb93a13", "ceb972a", "a924d81", "2127bcd", "d45c8ce", "840f793", "c6f0e0e", "026690a", "cee72dd", "d6006a0", "846c668", "74129bf", "7f18343", "8354688", "82fa6bb", "6319c34", "33ebaa4", "1e65682", "d23cb3d", "8d23fc0", "35e79d8", "36df0dd", "6dde094", "fd9c08b", "1b70461", "8854632", "4974803", "5139c33", "e00fad1", "fbec162", "23eb645", "274cad8", "0023d85", "44adde2", "76b905b", "e323902", "9a6c065", "80ad2cb", "3762e87", "314e3a1", "ea04832", "0bb1cf1", "4f512f3", "a2fb781", "e33bf11", "451dfe4", "f6c4920", "2d8299b", "1f6cd1f", "8050331", "4e55637", "ee3fa38", "04aff6d"]
+FIX_COMMITS = ["4e9e139", "5ee6583", "744f482", "eb93a13", "ceb972a", "a924d81", "2127bcd", "d45c8ce", "840f793", "c6f0e0e", "026690a", "cee72dd", "d6006a0", "846c668", "74129bf", "7f18343", "8354688", "82fa6bb", "6319c34", "33ebaa4", "1e65682", "d23cb3d", "8d23fc0", "35e79d8", "36df0dd", "6dde094", "fd9c08b", "1b70461", "8854632", "4974803", "5139c33", "e00fad1", "fbec162", "23eb645", "274cad8", "0023d85", "44adde2", "76b905b", "e323902", "9a6c065", "80ad2cb", "3762e87", "314e3a1", "ea04832", "0bb1cf1", "4f512f3", "a2fb781", "e33bf11", "451dfe4", "f6c4920", "2d8299b", "1f6cd1f", "8050331", "4e55637", "ee3fa38", "04aff6d", "c4e307b"]
 
 CLAIMS = {
     "C09": dict(
@@ -241,4 +241,26 @@ ADDENDA2 = {
     "C20": "cached_property values are fields of the heap graph.",
 }
 for _k, _v in ADDENDA2.items():
+    CLAIMS[_k]["text"] = CLAIMS[_k]["text"].rstrip() + " " + _v
+
+ADDENDA3 = {
+    "C01": "Round 4: the whole condition of a nested query is a condition position, every emission of an own value is judged, the key of exists() holds the chain below the quantified expression.",
+    "C02": "Round 4: variables a side quantifies itself are not counted when the form of or_ is chosen; the emission for a decided left operand has no further guards.",
+    "C03": "Round 4: the reset that clears carried state runs for every concrete class (MRO reachability), markers set inside generators are cleared by the reset, nothing that walks up the tree is memoised; a second query over a sub-expression re-parents it (known).",
+    "C04": "Round 4: field values are never truth-tested, a converted collection is a new object (None excepted).",
+    "C07": "Round 4: attribute chains through index / call / flatten are rejected, literal collections of every builtin type are unwrapped.",
+    "C08": "Round 4: shares the reset-reachability obligation of CARRY-1.",
+    "C09": "Round 4: the error objects do not touch result values (QC-ERRORS).",
+    "C10": "Round 4: the() / exactly(n) stop pulling once the count decides; Conclusion values are seeded as user data.",
+    "C11": "Round 4: collection-ness of an attribute is evaluated on the type model for every annotation category; the type-filter table is derived from the statement; == / != on two collections compares sets on every path; EP-THREAD is shared.",
+    "C12": "Round 4: the name -> argument mapping of every symbolic dispatch site comes from the callable's signature; bindings carried between values of a quantified variable hold no call results.",
+    "C13": "Round 4: instances are tested with `is None`, never for truth; the lazy enumeration skips wrappers whose instance is gone (which also discharges the sweep obligations for the census).",
+    "C14": "Round 4: edges with a dead endpoint are not handed to the inference procedure; SG-SWEEP is shared.",
+    "C15": "Round 4: no early exit from an edge-deriving loop; monitored containers compare element-wise; instances are not truth-tested; assignment after an inference leaves field and graph in disagreement (known: no retraction).",
+    "C16": "Round 4: bulk arguments are iterated once and never while storing into the same list, slices are hooked element-wise, the backing container is the field's own, containers compare element-wise.",
+    "C17": "Round 4: accessors see parallel edges; every spelling of an optional is in the type model.",
+    "C18": "Round 4: tagged objects are decided before plain values in the writer; no module-level state survives a call.",
+    "C19": "Round 4: the operations of the error initialisers on the stored tag are part of the exception flow.",
+}
+for _k, _v in ADDENDA3.items():
     CLAIMS[_k]["text"] = CLAIMS[_k]["text"].rstrip() + " " + _v
